@@ -81,6 +81,7 @@ package region
 //@   loop 1: invariant all32(s, -2147483648, 2147483647, r.sectors[s] == ((old(r.sectors[s]) && !inrun(old(offc(r, z*32 + x)), s)) || (n <= s && s < n + i))) && !r.sectors[2147483647]
 //@   loop 1: invariant all32(s, 0, 16777472, n <= s && s < n + need ==> !(old(r.sectors[s]) && !inrun(old(offc(r, z*32 + x)), s)))
 //@   ensures need >= 256 ==> err == ErrTooLarge                                      [@value]
+//@   ensures need >= 256 ==> all32(s, -2147483648, 2147483647, r.sectors[s] == old(r.sectors[s])) && r.sectors[2147483647] == old(r.sectors[2147483647])   [@frame]
 //@   ensures need >= 256 ==> all(d, 0, 1024, offc(r, d) == old(offc(r, d))) && all(a, 0, 1099511627776, Fdata(f, a) == old(Fdata(f, a)))   [@value @frame]
 //@   ensures all(d, 0, 1024, d != c ==> offc(r, d) == old(offc(r, d)))               [@frame]
 //@   ensures err == nil ==> num(offc(r, c)) == need && sec(offc(r, c)) >= 2          [@value]
